@@ -63,6 +63,14 @@ FIXED = [
     {"files": {"main.py": "x = 1\ndef f():\n    global x\n    x = x + 1\n    def g():\n        return x\n    return g()\nprint(f(), x)\n"
                           "y = [x for x in range(3)]\nprint(y, x, f\"{x} x\", 'x')  # x\n"},
      "entry": "main.py"},
+    # comprehensions written directly in a class body: the outermost iterable reads a class attribute
+    {"files": {"main.py": "class A:\n    x = 3\n    y = sum([s * 2 for s in range(x)])\n    z = len({s: 0 for s in (x, y)})\n"
+                          "    def g(self):\n        return self.x + self.y\nprint(A.x, A.y, A.z, A().g())\n"},
+     "entry": "main.py"},
+    # import aliases that are a prefix of the file / folder name of what they stand for
+    {"files": {"ma.py": "x = 1\n", "pk/__init__.py": "", "pk/mb.py": "y = 2\n",
+               "main.py": "import ma as m\nfrom pk import mb as mz\nimport pk as p\nprint(m.x, mz.y, p.mb.y)\n"},
+     "entry": "main.py"},
     # a module whose first line defines something spelled like the module
     {"files": {"ma.py": "def ma(x):\n    return x * 2\ny = 1\n", "main.py": "import ma\nprint(ma.ma(21), ma.y)\n"},
      "entry": "main.py"},
@@ -188,9 +196,11 @@ def judge(an, files, entry, path, tid, o, new_name, run_exec=True):
     return problems
 
 
-def analyse(ctx, files, entry, rng, stream, only=None, exec_all=True):
+def analyse(ctx, files, entry, rng, stream, only=None, exec_all=True, rp=None, paths=None, max_tokens=None):
     """Analysis of one project or None (outside the representable syntax).
-    only = (path, offset, new_name) restricts to one query (replay)."""
+    only = (path, offset, new_name) restricts to one query (replay).
+    rp = a rope project that is already open on `files` (a session: earlier renames were performed in it; it is not
+    closed here); paths / max_tokens restrict the queries to tokens of these modules."""
     p = L.observe_project(files)
     if p is None:
         return None
@@ -203,7 +213,10 @@ def analyse(ctx, files, entry, rng, stream, only=None, exec_all=True):
     an.new_name = L.fresh_name(files)
     an.base_run = L.run_entry(files, entry)
     an.queries = []          # (module obs, token | None, new name, kw, observation, problems)
-    rp = L.RopeProject(files)
+    own_rp = rp is None
+    if own_rp:
+        rp = L.RopeProject(files)
+    an.steps = list(getattr(rp, "steps", []))
     try:
         if only is not None:
             path, offset, nn = only
@@ -226,8 +239,19 @@ def analyse(ctx, files, entry, rng, stream, only=None, exec_all=True):
             an.queries.append((m, t, nn, keyword.iskeyword(nn), o, probs))
         else:
             for m in p.mods:
+                if paths is not None and m.path not in paths:
+                    continue
                 nb = 0
-                for t in m.tokens:
+                toks_m = list(m.tokens)
+                if max_tokens is not None and len(toks_m) > max_tokens:
+                    # one token per spelling first, so that several bindings are asked
+                    first = {}
+                    for t in toks_m:
+                        first.setdefault(t.name, t)
+                    toks_m = sorted(first.values(), key=lambda t: t.id)
+                    rng.shuffle(toks_m)
+                    toks_m = sorted(toks_m[:max_tokens], key=lambda t: t.id)
+                for t in toks_m:
                     if an.keys0[0].get((m.path, t.id), ("",))[0] == "builtin" if isinstance(an.keys0[0].get((m.path, t.id)), tuple) else False:
                         # uses of builtins: a recorded finding (the rename is accepted); two per module are enough
                         nb += 1
@@ -242,6 +266,8 @@ def analyse(ctx, files, entry, rng, stream, only=None, exec_all=True):
                         k = an.keys0[0].get((m.path, t.id))
                         o["target"] = k
                     an.queries.append((m, t, an.new_name, False, o, probs))
+                if paths is not None:
+                    continue
                 # the module itself
                 if m.flat or m.path.endswith("__init__.py"):
                     o = rp.rename(m.path, None, an.new_name)
@@ -299,7 +325,8 @@ def analyse(ctx, files, entry, rng, stream, only=None, exec_all=True):
                     an.other = getattr(an, "other", [])
                     an.other.append((m, off, s, o, probs))
     finally:
-        rp.close()
+        if own_rp:
+            rp.close()
     # behaviour oracle, one run per distinct resulting tree
     distinct = {}
     for (h, after, e1, path, tid) in an.exec_jobs:
@@ -327,6 +354,52 @@ def analyse(ctx, files, entry, rng, stream, only=None, exec_all=True):
         if k in bad_exec:
             probs.append(bad_exec[k] + " (offset %d, %r)" % (off, s))
     return an
+
+
+def run_session(ctx, files, entry, rng, stream):
+    """A two-step session in ONE rope project: a rename in a library module is performed and kept, then other names of
+    that module are renamed in the same project and judged against the tree after the first step (what rope cached
+    while resolving the first rename must not leak into the second).  Returns the Analysis of step two or None."""
+    p = L.observe_project(files)
+    if p is None:
+        return None
+    libs = [m for m in p.mods if m.path != entry and not m.path.endswith("__init__.py") and m.tokens]
+    if not libs:
+        return None
+    libs.sort(key=lambda m: (-m.path.count("/"), m.path))       # the deepest module first
+    target = libs[0] if rng.random() < 0.8 else rng.choice(libs)
+    keys0 = L.project_keys(files)
+    if keys0 is None:
+        return None
+    rp = L.RopeProject(files)
+    try:
+        name1 = L.fresh_name(files)
+        cands = [t for t in target.tokens if isinstance(keys0[0].get((target.path, t.id)), tuple)
+                 and keys0[0][(target.path, t.id)][0] == "var"]
+        rng.shuffle(cands)
+        done = None
+        for t in cands[:6]:
+            o = rp.rename(target.path, t.offset, name1, perform=False)
+            if o["kind"] == "changes" and o["contents"] and not o["moves"] and target.path in o["contents"]:
+                files1 = rp.commit(target.path, t.offset, name1)
+                if files1 is not None:
+                    done = (t, files1)
+                    break
+        if done is None:
+            return None
+        t1, files1 = done
+        for pth, src in files1.items():
+            if pth.endswith(".py"):
+                try:
+                    compile(src, pth, "exec")
+                except SyntaxError:
+                    return None             # the first step itself went wrong: that is the single-rename stream's business
+        an = analyse(ctx, files1, entry, rng, "session", rp=rp, paths={target.path}, max_tokens=8)
+        if an is not None:
+            an.files0, an.entry0 = files, entry
+        return an
+    finally:
+        rp.close()
 
 
 # ============================================================================ Coq
@@ -373,7 +446,7 @@ def coq_results(ctx, ans, chunk=2):
 
 # ============================================================================ signatures of known findings
 def signature(obj):
-    if obj.get("kind") != "rename":
+    if obj.get("kind") not in ("rename", "session"):
         return None
     return obj.get("focus") or None
 
@@ -785,24 +858,36 @@ def first_binding_line(tree, name):
 
 
 def class_body_read_before_bind(tree, name):
-    """a class body reads `name` and also binds it (the read may see the global at run time)"""
+    """a class body reads `name` in a statement that runs BEFORE the body has bound it (up to and including the
+    statement of the first binding: `x = min(x, 7)`), and binds it: at run time the read sees the enclosing binding,
+    rope groups it with the class attribute.  A read after the binding is the attribute for both."""
     for c in ast.walk(tree):
         if isinstance(c, ast.ClassDef):
-            reads = binds = False
+            early = bound = False
             for s in c.body:
                 if isinstance(s, (ast.FunctionDef, ast.AsyncFunctionDef, ast.ClassDef)):
+                    heads = list(s.decorator_list)
+                    if hasattr(s, "args"):
+                        heads += list(s.args.defaults) + [x for x in s.args.kw_defaults if x is not None]
+                    else:
+                        heads += list(s.bases)
+                    if not bound and any(name in target_ids(d) for d in heads):
+                        early = True
                     if s.name == name:
-                        binds = True
-                    for d in s.decorator_list + (s.args.defaults if hasattr(s, "args") else []):
-                        reads = reads or name in target_ids(d)
+                        bound = True
                     continue
+                loads = stores = False
                 for n in ast.walk(s):
                     if isinstance(n, ast.Name) and n.id == name:
                         if isinstance(n.ctx, ast.Load):
-                            reads = True
+                            loads = True
                         else:
-                            binds = True
-            if reads and binds:
+                            stores = True
+                if loads and not bound:
+                    early = True
+                if stores:
+                    bound = True
+            if early and bound:
                 return True
     return False
 
@@ -930,6 +1015,10 @@ def unexplained_mismatches(ctx, an, bad, count=False):
 
 
 def replay_obj(an, m, t, nn, o, probs, focus):
+    if getattr(an, "steps", None):
+        return {"kind": "session", "files": an.files0, "entry": an.entry0, "steps": an.steps, "path": m.path,
+                "offset": t.offset if t is not None else None, "token": (t.name if t is not None else None),
+                "new_name": nn, "problems": probs[:6], "focus": focus, "stream": an.stream}
     return {"kind": "rename", "files": an.files, "entry": an.entry, "path": m.path,
             "offset": t.offset if t is not None else None, "token": (t.name if t is not None else None),
             "new_name": nn, "problems": probs[:6], "focus": focus, "stream": an.stream}
@@ -946,6 +1035,19 @@ def replay(ctx, obj):
             return True
         (bad, _, alpha, _), = coq_results(ctx, [an])
         return bool(unexplained_mismatches(ctx, an, bad)) or 2 in alpha or 5 in alpha or 8 in alpha
+    if obj.get("kind") == "session":
+        rp = L.RopeProject(obj["files"])
+        try:
+            files1 = obj["files"]
+            for (pth, off, nn) in obj["steps"]:
+                files1 = rp.commit(pth, off, nn)
+                if files1 is None:
+                    return True
+            an = analyse(ctx, files1, obj["entry"], random.Random(0), "session", rp=rp,
+                         only=(obj["path"], obj["offset"], obj["new_name"]))
+        finally:
+            rp.close()
+        return an is None or bool(an.queries[0][5])
     if obj.get("kind") != "rename":
         return True
     an = analyse(ctx, obj["files"], obj["entry"], random.Random(0), "replay",
@@ -1006,7 +1108,7 @@ def report(ctx, an, code, classes):
     for (m, t, nn, kw, o, probs) in an.queries:
         if probs:
             focus = focus_of(an, m, t, o, probs)
-            if focus is None and an.stream != "replay" and not kw:
+            if focus is None and an.stream not in ("replay", "session") and not kw:
                 # all queries of a project share one rope project (changes performed and undone in between); rope's
                 # inference can go stale after edits (C02-stale-attribute-after-edit, C13).  C01 quantifies over
                 # programs and offsets: the verdict counts only if a FRESH project gives it too.
@@ -1105,6 +1207,14 @@ def run(ctx):
         if an.base_run[0] != 0:
             ctx.count("projects_ending_with_exception")
         batch.append(an)
+        if len(an.p.mods) > 1 and stream != "fixed" and rng.random() < ctx.scale(0.7, 0.7):
+            sess = run_session(ctx, pr["files"], pr["entry"], rng, stream)
+            if sess is not None:
+                ctx.count("sessions")
+                ctx.count("session_queries", len(sess.queries))
+                if any("/" in m.path and m.path.count("/") >= 2 for m in sess.p.mods):
+                    ctx.count("sessions_with_a_module_two_packages_deep")
+                batch.append(sess)
         if len(batch) >= 12:
             flush(ctx, batch)
             batch = []
